@@ -139,6 +139,12 @@ func execC04(w *W, raw json.RawMessage) CaseOut {
 	if strings.HasPrefix(a.History, "R") {
 		return execC04Remote(a)
 	}
+	if a.History == "G3" {
+		return execC04RestartGate(a)
+	}
+	if a.History == "G4" {
+		return execC04RunnerGate(a)
+	}
 	var out CaseOut
 	out.Nontrivial = a.K > 0
 	dir, err := os.MkdirTemp(scratchDir(), "c04-")
@@ -289,6 +295,207 @@ func execC04(w *W, raw json.RawMessage) CaseOut {
 	return out
 }
 
+// execC04RestartGate: a command is still running when the daemon is killed (from outside); the restarted
+// daemon is parked at a hook point of its recovery (gate) until the runner has written the final record,
+// then released: the unit must still be followed to completion.
+func execC04RestartGate(a c04Args) CaseOut {
+	var out CaseOut
+	out.Nontrivial = true
+	dir, err := os.MkdirTemp(scratchDir(), "c04g-")
+	if err != nil {
+		out.violate("harness:c04-tmp", "%v", err)
+		return out
+	}
+	defer os.RemoveAll(dir)
+	defer killStrayRunners(dir)
+	d, err := startDaemon(dir, "n1", nil)
+	if err != nil {
+		out.violate("harness:c04-daemon", "%v", err)
+		if d != nil {
+			d.kill()
+		}
+		return out
+	}
+	sub := d.submit("n1", "slow", []byte("running\n"), 10*time.Second)
+	if sub.ID == "" {
+		d.kill()
+		out.violate("harness:c04-submit", "%+v", sub)
+		return out
+	}
+	id := sub.ID
+	d.waitState(id, 10*time.Second, 1)
+	d.kill()
+	gates := filepath.Join(dir, "gates")
+	os.MkdirAll(gates, 0o700)
+	point, hit := a.Gate, 1
+	if i := strings.Index(a.Gate, "#"); i > 0 {
+		point = a.Gate[:i]
+		fmt.Sscan(a.Gate[i+1:], &hit)
+	}
+	os.WriteFile(filepath.Join(gates, "daemon."+point+".wait"), nil, 0o600)
+	ctx := fmt.Sprintf("history G3 (slow unit running, daemon killed, recovery parked at %s until the runner has finished)", a.Gate)
+	at := "recovery@" + a.Gate
+	started := make(chan *daemon, 1)
+	var startErr error
+	go func() {
+		d2, err := startDaemon(dir, "n1", []string{"VERIF_GATE_DIR=" + gates})
+		startErr = err
+		started <- d2
+	}()
+	reached := waitArrivals(dir, c13Gate{Role: "daemon", Point: point}, hit, 15*time.Second)
+	if !reached {
+		out.count("gate_not_reached", 1)
+	}
+	// the runner finishes meanwhile
+	recPath := filepath.Join(dir, "data", "n1", id, "status")
+	dl := time.Now().Add(15 * time.Second)
+	for time.Now().Before(dl) {
+		b, _ := os.ReadFile(recPath)
+		var r struct{ State int }
+		if json.Unmarshal(b, &r) == nil && r.State >= 2 {
+			break
+		}
+		time.Sleep(50 * time.Millisecond)
+	}
+	time.Sleep(100 * time.Millisecond)
+	os.WriteFile(filepath.Join(gates, "daemon."+point+".go"), nil, 0o600)
+	d2 := <-started
+	if startErr != nil || d2 == nil {
+		out.violate("crash:daemon-does-not-restart:at="+at, "%s: %v", ctx, startErr)
+		if d2 != nil {
+			d2.kill()
+		}
+		return out
+	}
+	defer d2.kill()
+	fin, werr := d2.waitState(id, 25*time.Second, 2, 3, 4)
+	if werr != nil {
+		stt, det := -1, ""
+		if fin != nil {
+			stt, det = fin.State, fin.Detail
+		}
+		b, _ := os.ReadFile(recPath)
+		out.violate("crash:stuck-running:at="+at, "%s: unit %s never reaches a final state after the restart (reported state %d, %q) although its record on disk says %s", ctx, id, stt, det, trunc(string(b), 120))
+	} else if fin.State == 2 {
+		hdr, data, rerr := d2.results(id, 0, 20*time.Second)
+		if !strings.HasPrefix(hdr, "Streaming") || string(data) != "running\nend\n" {
+			out.violate("crash:output-lost:at="+at, "%s: results give %q / %q (%v)", ctx, hdr, trunc(string(data), 60), rerr)
+		}
+	}
+	out.Outcome = fmt.Sprintf("G3 gate=%s reached=%v", a.Gate, reached)
+	out.count("acknowledged_units_checked", 1)
+	return out
+}
+
+// execC04RunnerGate: the daemon dies right after it has spawned the runner: the runner is parked at a hook
+// point (its record still says Pending, the command is running), the daemon is killed and restarted, then
+// the runner goes on. The command was running at the crash: it is followed to completion, and what the
+// node reports in the end is what the record on disk says.
+func execC04RunnerGate(a c04Args) CaseOut {
+	var out CaseOut
+	out.Nontrivial = true
+	dir, err := os.MkdirTemp(scratchDir(), "c04h-")
+	if err != nil {
+		out.violate("harness:c04-tmp", "%v", err)
+		return out
+	}
+	defer os.RemoveAll(dir)
+	defer killStrayRunners(dir)
+	gates := filepath.Join(dir, "gates")
+	os.MkdirAll(gates, 0o700)
+	os.WriteFile(filepath.Join(gates, "runner."+a.Gate+".wait"), nil, 0o600)
+	d, err := startDaemon(dir, "n1", []string{"VERIF_GATE_DIR=" + gates})
+	if err != nil {
+		out.violate("harness:c04-daemon", "%v", err)
+		if d != nil {
+			d.kill()
+		}
+		return out
+	}
+	sub := d.submit("n1", "slow", []byte("running\n"), 10*time.Second)
+	if sub.ID == "" {
+		d.kill()
+		out.violate("harness:c04-submit", "%+v", sub)
+		return out
+	}
+	id := sub.ID
+	reached := waitFile(filepath.Join(gates, "runner."+a.Gate+".arrived"), 15*time.Second)
+	if !reached {
+		out.count("gate_not_reached", 1)
+	}
+	d.kill()
+	ctx := fmt.Sprintf("history G4 (daemon killed while the runner of a slow unit is parked at %s, restarted, then the runner goes on)", a.Gate)
+	at := fmt.Sprintf("runner@%s+%dms", a.Gate, a.Second)
+	tStart := time.Now() // the recovery's monitor cannot have started before this
+	d2, err := startDaemon(dir, "n1", nil)
+	if err != nil {
+		out.violate("crash:daemon-does-not-restart:at="+at, "%s: %v", ctx, err)
+		if d2 != nil {
+			d2.kill()
+		}
+		return out
+	}
+	defer d2.kill()
+	// the recovery has looked at the unit (work types are registered before the control socket opens);
+	// the runner goes on a.Second ms later
+	time.Sleep(time.Duration(a.Second) * time.Millisecond)
+	os.WriteFile(filepath.Join(gates, "runner."+a.Gate+".go"), nil, 0o600)
+	// the runner ends on its own: wait for its final record on disk
+	recPath := filepath.Join(dir, "data", "n1", id, "status")
+	var disk struct {
+		State      int
+		StdoutSize int64
+	}
+	// when did the runner's next rewrite (Running) land, counted from the start of the recovery?
+	firstRewrite := time.Duration(-1)
+	for dl := time.Now().Add(5 * time.Second); time.Now().Before(dl); {
+		b, _ := os.ReadFile(recPath)
+		if json.Unmarshal(b, &disk) == nil && disk.State >= 1 && disk.State != 3 {
+			firstRewrite = time.Since(tStart)
+			break
+		}
+		time.Sleep(10 * time.Millisecond)
+	}
+	dl := time.Now().Add(20 * time.Second)
+	for time.Now().Before(dl) {
+		b, _ := os.ReadFile(recPath)
+		if json.Unmarshal(b, &disk) == nil && disk.State >= 2 {
+			break
+		}
+		time.Sleep(100 * time.Millisecond)
+	}
+	time.Sleep(2500 * time.Millisecond)
+	b, _ := os.ReadFile(recPath)
+	json.Unmarshal(b, &disk)
+	st, raw, serr := d2.status(id, 20*time.Second)
+	if serr != nil || st == nil {
+		out.violate("crash:no-answer:status:at="+at, "%s: %q %v", ctx, trunc(raw, 100), serr)
+		return out
+	}
+	if a.Second < 500 && (firstRewrite < 0 || firstRewrite > 900*time.Millisecond) {
+		// the machine was too slow for the short variant: the runner's rewrite did not land within the
+		// monitor's first second for sure, so this execution says nothing (the long variant covers that)
+		out.count("timing_not_achieved", 1)
+		out.Outcome = "G4 timing-not-achieved"
+		return out
+	}
+	if disk.State == 2 {
+		if st.State != 2 || st.StdoutSize != disk.StdoutSize {
+			out.violate("crash:running-command-not-followed:at="+at, "%s: the command was running at the crash and completed (record on disk: state %d, %d bytes), but the node reports state %d (%q) with %d bytes", ctx, disk.State, disk.StdoutSize, st.State, st.Detail, st.StdoutSize)
+		} else {
+			hdr, data, rerr := d2.results(id, 0, 20*time.Second)
+			if !strings.HasPrefix(hdr, "Streaming") || string(data) != "running\nend\n" {
+				out.violate("crash:output-lost:at="+at, "%s: results give %q / %q (%v)", ctx, hdr, trunc(string(data), 60), rerr)
+			}
+		}
+	} else {
+		out.count("runner_did_not_succeed", 1)
+	}
+	out.Outcome = fmt.Sprintf("G4 gate=%s reached=%v disk=%d reported=%d", a.Gate, reached, disk.State, st.State)
+	out.count("acknowledged_units_checked", 1)
+	return out
+}
+
 func coordC04(c *Coord) {
 	hist := []string{"H1", "H2", "R1"}
 	if c.Thorough() {
@@ -344,6 +551,14 @@ func coordC04(c *Coord) {
 			}
 		}
 	}
+	for _, g := range []string{"load.read", "load.read#2", "load.read#3", "lock.released#3", "lock.released#4", "monitor.start"} {
+		jobs = append(jobs, c04Args{History: "G3", Role: "daemon", Gate: g})
+	}
+	for _, g := range []string{"runner.started"} {
+		// (Second = delay in ms between the end of the recovery and the runner going on)
+		jobs = append(jobs, c04Args{History: "G4", Role: "runner", Gate: g, Second: 50})
+		jobs = append(jobs, c04Args{History: "G4", Role: "runner", Gate: g, Second: 1500})
+	}
 	var names []string
 	for n := range pointNames {
 		names = append(names, n)
@@ -374,8 +589,8 @@ func init() {
 		ID:        "C04",
 		Level:     "fault_enumeration",
 		Technique: "crash-point enumeration on the real daemon and its command-runner: the process kills itself (SIGKILL) at the k-th hook point it reaches, for every k of each history; restart on the same data directory; acknowledged units compared with the submitter's model",
-		Rule: "histories: H1 one local unit to completion + results; H2 two submissions, the second while the first runs (thorough: H3 unit still running at the crash, H5 failing unit + release of a finished unit); R1 a unit submitted by n1 to a second real daemon n2 over a TCP link, followed to completion, with n1 killed at each of its points and, in addition, from outside while n2 is parked at {unit allocated, stdin file created, input received, before start} of its submission handler; for each history every daemon crash point k=1..n+3 (n from a counting run) and every runner crash point; thorough: H1 with a second crash at the 1st..12th point of the recovery. " +
-			"A case is one (history, role, k); all are distinct; non-trivial = a crash point was selected. Oracle after restart: every acknowledged unit listed with its work type; a unit seen finished keeps state and size and its full output can be fetched; other units reach a final state within 25 s (daemon crashes); every query answers; remote work: listed as remote work for the same node and type, a remote unit ID named by the record at the crash (or, once n2 has received the input, created by n2) is the one named after the restart.",
+		Rule: "histories: H1 one local unit to completion + results; H2 two submissions, the second while the first runs (thorough: H3 unit still running at the crash, H5 failing unit + release of a finished unit); R1 a unit submitted by n1 to a second real daemon n2 over a TCP link, followed to completion, with n1 killed at each of its points and, in addition, from outside while n2 is parked at {unit allocated, stdin file created, input received, before start} of its submission handler; G3 a running command whose daemon is killed and whose restarted daemon is parked at {1st..3rd record read, 3rd/4th lock release, start of the status monitor} of its recovery until the runner has written the final record; G4 the daemon killed and restarted while the runner is parked right after it started the command (record still Pending), then released 50 ms / 1.5 s after the recovery; for each history every daemon crash point k=1..n+3 (n from a counting run) and every runner crash point; thorough: H1 with a second crash at the 1st..12th point of the recovery. " +
+			"A case is one (history, role, k); all are distinct; non-trivial = a crash point was selected. Oracle after restart: every acknowledged unit listed with its work type; a unit seen finished keeps state and size and its full output can be fetched; other units reach a final state within 25 s (daemon crashes); every query answers; remote work: listed as remote work for the same node and type, a remote unit ID named by the record at the crash (or, once n2 has received the input, created by n2) is the one named after the restart; G4: what the node reports in the end equals the runner's final record on disk.",
 		Assumptions: []string{"process kill between two hook points (file-system steps), not power loss with torn writes", "real time: a query counts as unanswered after 30 s", "a runner that died is checked for listing and answering only"},
 		Exec:        execC04,
 		Coord:       coordC04,
